@@ -1,5 +1,5 @@
 """C01 / C02: Merkle gadgets.  T-trace + T-corr + violation search."""
-import json, re
+import json, os, re
 from . import common
 from .common import Violation, TieBroken
 
@@ -146,6 +146,17 @@ def run(ctx, mode):
     found = corr_runs(ctx, mode, n, nfull, seeds)
     ctx.oblige(f'T-corr {mode}: real gadgets (test engine, R1CS with honest and adversarial hints, full circuit) = proved batch specification',
                not found, '' if not found else json.dumps(found[0][1][0][1:]))
+    # the depth range of the deletion circuit: the index is decomposed on depth+1 bits of a 32-bit
+    # value, so a padding slot needs bit `depth` of a uint32 — depth 32 has none and must be refused
+    if mode == 'del' and not found:
+        common.go_build(['xtool'])
+        outs = {k: (common.run([os.path.join(common.HBIN, 'xtool'), 'r1cshash', 'deletion', '32', '1', k]).stdout.strip() or 'no output')[:160] for k in ('build', 'import')}
+        refused = all(o.startswith('error') and 'max depth' in o for o in outs.values())
+        ctx.oblige('deletion circuit of depth 32 is refused by BuildR1CSDeletion and ImportDeletionSetup', refused, json.dumps(outs))
+        if not refused:
+            replay = common.write_replay(ctx, 'depth', {'kind': 'depth', 'mode': 'deletion', 'depth': 32, 'batch': 1, 'observed': outs,
+                                                       'recipe': 'prover.BuildR1CSDeletion(32, 1) / ImportDeletionSetup(32, 1, …) must return the depth error; at depth 32 no padding slot can be proved'})
+            raise Violation(f'a deletion circuit of depth 32 is built ({json.dumps(outs)[:300]}): padding slots (index bit 32 of a 32-bit index) cannot be proved there', replay)
     # the service path named by the property ("Prove* error / Verify* result"): real Setup, Prove and
     # Verify on valid and mutated batches, at a small tree and at the deepest tree both modes support
     if not found:
